@@ -149,6 +149,12 @@ pub fn test_case(c: &ServeCase, stats: &mut Stats) -> Result<(), String>
     std::fs::create_dir_all(w.path(&format!(".ruler/cache/{}", hashlike_dir))).map_err(|e| format!("harness: {}", e))?;
     w.write(&format!(".ruler/cache/{}/inside.txt", hashlike_dir), CANARY_RULER.as_bytes())?;
 
+    // identity entry: a cache file with content nobody else has, to tell this world's server from a foreign one that
+    // happens to listen on the same port (another worker or another check run that grabbed the port first)
+    let identity: Vec<u8> = format!("rv-identity {} {:?} {}", std::process::id(), w.dir, c.req_seed).into_bytes();
+    let identity_name = b62::name_of(&identity);
+    w.write(&format!(".ruler/cache/{}", identity_name), &identity)?;
+
     let snap = w.snapshot();
     let cache: BTreeMap<String, Vec<u8>> = snap.iter().filter(|(k, _)| k.starts_with(".ruler/cache/") && !k.ends_with("/canary") && !k.ends_with("/x.y") && !k.ends_with("/inside.txt")).map(|(k, v)| (k[".ruler/cache/".len()..].to_string(), v.0.clone())).collect();
 
@@ -160,7 +166,30 @@ pub fn test_case(c: &ServeCase, stats: &mut Stats) -> Result<(), String>
         let mut child = w.spawn_server(port)?;
         match realfs::wait_for_port(port, &mut child, std::time::Duration::from_secs(20))
         {
-            Ok(()) => { started = Some((port, Killer(child))); break; }
+            Ok(()) =>
+            {
+                // whose server is it?  If the identity entry does not come back, either a foreign server holds the port (then
+                // our child cannot bind and exits: try another port) or it is ours and serves wrongly (then go on and let
+                // the checks below say so).
+                let mine = matches!(get(port, &format!("/files/{}", identity_name)), Ok(r) if r.status == 200 && r.body == identity);
+                if !mine
+                {
+                    let t0 = std::time::Instant::now();
+                    let mut exited = false;
+                    while t0.elapsed() < std::time::Duration::from_secs(10)
+                    {
+                        if let Ok(Some(_)) = child.try_wait() { exited = true; break; }
+                        std::thread::sleep(std::time::Duration::from_millis(20));
+                    }
+                    if exited
+                    {
+                        stats.count("port_collisions_retried", 1);
+                        continue;
+                    }
+                }
+                started = Some((port, Killer(child)));
+                break;
+            }
             Err(_) => { let _ = child.kill(); let _ = child.wait(); }
         }
     }
